@@ -35,6 +35,7 @@ From DV Require Import Model.PyPrims Model.Tree Model.Heap Model.C15Prims Model.
      Model.C03GenInst Model.C08GenPrims Gen.Extract Model.C08GenInst Proofs.C03Base
      Proofs.C08GenBase Proofs.C08GenSim Proofs.C08GenFinal Proofs.C08GenWrap.
 From DV Require Model.C08Model Proofs.C08RemoveDist Proofs.C08RemoveDistHeap.
+From DV Require Model.HeapOps Proofs.C03GenPrune Proofs.C08GenPruneKeepAll.
 Import ListNotations.
 Open Scope Z_scope.
 
@@ -156,3 +157,50 @@ Theorem generated_remove_child_su_dist_nonvacuous :
   (forall z, (length (kids (of_tree C08RemoveDist.exrd None) z) < 10)%nat).
 Proof. exact C08RemoveDistHeap.gen_remove_child_su_dist_hyps. Qed.
 Print Assumptions generated_remove_child_su_dist_nonvacuous.
+
+(* ---- wave 8: the "keep all" subset through the GENERATED prune_taxa / retain_taxa ----
+   Tree_prune_taxa / Tree_retain_taxa / Tree_prune_leaves_without_taxa are definitions of Gen/Mutators.v,
+   compiled from _tree.py on every run.  Handed an EMPTY taxon set (prune_taxa([]); prune_taxa_with_labels
+   whose labels match nothing: Tree_prune_taxa_with_labels passes `get_taxa labels` on, Props/C03Gen.v
+   with_labels_delegate) prune_taxa is not a no-op but exactly prune_leaves_without_taxa(recursive=True)
+   with the same flags - the pointer-level operation of HeapOps.v AND the generated method - so
+   outdegree-one nodes already present are still suppressed and the encoding is still refreshed when asked;
+   retain_taxa naming every member of the namespace likewise.  h: any heap whose seed spells out a tree;
+   fuel: at least HeapOps.v's own loop bound.  An early return on the empty set changes Tree_prune_taxa
+   and breaks Proofs/C03GenPrune.v gen_prune_taxa_e, the lemma these theorems rest on. *)
+Theorem generated_prune_taxa_keep_all :
+  forall (fuel : nat) (ub su ol oi : bool) (h : heap) (t : tree),
+  abs_at h (seed h) = Some t -> (Heap.fuel_of h <= fuel)%nat ->
+  HeapOps.run_op_v C03GenPrune.v_now (HeapOps.OPruneLeavesWithoutTaxa true ub su) h <> HFuel ->
+  to_hres (Tree_prune_taxa HG fuel [] ub su ol oi h)
+    = HeapOps.run_op_v C03GenPrune.v_now (HeapOps.OPruneLeavesWithoutTaxa true ub su) h /\
+  to_hres (Tree_prune_taxa HG fuel [] ub su ol oi h)
+    = to_hres (Tree_prune_leaves_without_taxa HG fuel true ub su h).
+Proof. exact C08GenPruneKeepAll.gen_prune_taxa_keep_all_op. Qed.
+Print Assumptions generated_prune_taxa_keep_all.
+
+Theorem generated_retain_taxa_keep_all :
+  forall (fuel : nat) (namespace taxa : list Z) (ub su : bool) (h : heap) (t : tree),
+  (forall x, In x namespace -> Heap.memz x taxa = true) ->
+  abs_at h (seed h) = Some t -> (Heap.fuel_of h <= fuel)%nat ->
+  HeapOps.run_op_v C03GenPrune.v_now (HeapOps.OPruneLeavesWithoutTaxa true ub su) h <> HFuel ->
+  to_hres (Tree_retain_taxa HG fuel namespace taxa ub su h)
+    = HeapOps.run_op_v C03GenPrune.v_now (HeapOps.OPruneLeavesWithoutTaxa true ub su) h.
+Proof. exact C08GenPruneKeepAll.gen_retain_taxa_keep_all_op. Qed.
+Print Assumptions generated_retain_taxa_keep_all.
+
+(* hypotheses satisfiable, and the pre-existing unifurcation is collapsed: ((A:1)X:2,B:1)R, rooted, empty set *)
+Theorem generated_prune_taxa_keep_all_nonvacuous :
+  abs_at C08GenPruneKeepAll.ka_heap (seed C08GenPruneKeepAll.ka_heap) = Some C08GenPruneKeepAll.ka_tree /\
+  (Heap.fuel_of C08GenPruneKeepAll.ka_heap <= 10)%nat /\
+  HeapOps.run_op_v C03GenPrune.v_now (HeapOps.OPruneLeavesWithoutTaxa true false true) C08GenPruneKeepAll.ka_heap <> HFuel.
+Proof. exact C08GenPruneKeepAll.keep_all_op_hypotheses_hold. Qed.
+Print Assumptions generated_prune_taxa_keep_all_nonvacuous.
+
+Theorem generated_prune_taxa_keep_all_suppresses :
+  match to_hres (Tree_prune_taxa HG 10 [] false true true false C08GenPruneKeepAll.ka_heap) with
+  | HOk h' => abs_at h' (seed h')
+  | _ => None
+  end = Some (T 0 None None None [T 2 (Some 0) None (Some 3072) []; T 3 (Some 1) None (Some 1024) []]).
+Proof. exact C08GenPruneKeepAll.keep_all_suppresses. Qed.
+Print Assumptions generated_prune_taxa_keep_all_suppresses.
